@@ -54,11 +54,11 @@ Proof.
   unfold buf_events, buf_times. rewrite map_app, !map_map. f_equal; apply map_ext; intros [t q]; reflexivity.
 Qed.
 
-Lemma buffer_sound e (b : bufrec) :
+Lemma buffer_sound_basic e (b : bufrec) :
   (forall f, In f (buffer_block b) -> feval e f = true) ->
-  forall k f, In (k, f) (spec_C09_P b) -> feval e f = true.
+  forall k f, In (k, f) (spec_C09_basic b) -> feval e f = true.
 Proof.
-  intros H k f Hin. unfold spec_C09_P in Hin. unfold buffer_block in H.
+  intros H k f Hin. unfold spec_C09_basic in Hin. unfold buffer_block in H.
   destruct (if b_conc b then sort_dup _ _ else dsort _ 0 _) as [sorted sa] eqn:Hs.
   repeat (apply in_app_or in Hin as [Hin|Hin]).
   - destruct (b_init b) as [v|]; [|destruct Hin]. destruct Hin as [[= <- <-]|[]]. apply H. apply in_or_app. left. now left.
@@ -99,10 +99,3 @@ Proof.
       rewrite feval_eq in *. rewrite <- (Heq _ _ H1), <- (Heq _ _ H2). exact Hlt.
 Qed.
 
-Theorem C09_sound : forall st e, sat e (initialize st) ->
-  forall k f, In (k, f) (spec_C09 st) -> feval e f = true.
-Proof.
-  intros st e Hs k f Hin. unfold spec_C09 in Hin.
-  apply in_flat_map in Hin as (b & Hb & Hin). apply in_map_iff in Hin as ([k' f'] & [= <- <-] & Hin).
-  apply sat_initialize_ext in Hs as [_ Hbuf]. eapply buffer_sound; eauto.
-Qed.
